@@ -44,6 +44,20 @@ inductive Kind where
   | scaler | window | dirichlet | hmc | block
 deriving Repr, BEq, DecidableEq
 
+/-- an `Adaptor` of `HMCOperator._adaptors` (`hmc/adaptation.py`) with its bookkeeping state -/
+inductive Adaptor (α : Type) where
+  /-- `AdaptiveStepSize`: target, `_start`, `_end` (`none` = inf), `use_acceptance_rate`,
+  `_call_counter`, `_accepted` -/
+  | adaptive (target : α) (start : Nat) (stop : Option Nat) (useRate : Bool) (calls accepted : Nat)
+  /-- `DualAveragingStepSize` + its `DualAveraging`: mu, gamma, kappa, t0, delta, `_start`, `_end`,
+  `_call_counter`, `_counter`, x, x_bar, s_bar -/
+  | dual (mu gamma kappa t0 delta : α) (start : Nat) (stop : Option Nat) (calls counter : Nat)
+      (x xbar sbar : α)
+  /-- `MassMatrixAdaptor`: acts on the mass matrix parameter, never on the step size (the current
+  mass matrix enters the machine through `Env.hmcProp`) -/
+  | massMatrix
+deriving Repr
+
 /-- one `MCMCOperator` object -/
 structure Op (α : Type) where
   id : Nat                   -- position in `self._operators`
@@ -57,6 +71,7 @@ structure Op (α : Type) where
   accept : Nat               -- `_accept`
   reject : Nat               -- `_reject`
   window : List Nat          -- `_accept_window`
+  adaptors : List (Adaptor α) := []   -- `HMCOperator._adaptors`
 deriving Repr
 
 structure Machine (α : Type) where
@@ -81,6 +96,12 @@ structure Env (α : Type) where
   get : Kind → α → α         -- `adaptable_parameter` getter, as a function of the scale field
   set : Kind → α → α         -- the scale field `set_adaptable_parameter(value)` stores
   rm : α → α → α → α → α     -- `MCMCOperator.tune`: (adaptable, acceptance_prob, target, count)
+  /-- `AdaptiveStepSize.learn`: (step size, prob, target, call counter) ↦ new step size -/
+  asNew : α → α → α → α → α
+  /-- `DualAveraging.step`: mu gamma kappa t0, new counter, s_bar, x_bar, statistic ↦ (s_bar, x, x_bar) -/
+  daStep : α → α → α → α → α → α → α → α → α × α × α
+  /-- `math.exp` of `DualAveragingStepSize.learn` -/
+  daSet : α → α
 
 /-- record of one transition, for the correspondence -/
 structure Rec (α : Type) where
@@ -194,12 +215,55 @@ def Op.onAccept (op : Op α) : Op α :=
 def Op.onReject (op : Op α) : Op α :=
   { op with reject := op.reject + 1, window := pushWindow op.window op.windowLen 0 }
 
-/-- `MCMCOperator.tune` + the `adaptable_parameter` setter (`_adapt_count += 1`) -/
-def tune (env : Env α) (op : Op α) (accProb : α) : Op α :=
-  if op.disabled then op
+/-- `start <= call_counter <= end` -/
+def inWindow (start : Nat) (stop : Option Nat) (calls : Nat) : Bool :=
+  decide (start ≤ calls) && (match stop with | none => true | some e => decide (calls ≤ e))
+
+/-- `Adaptor.learn(acceptance_prob, sample, accepted)`: new adaptor state and new step size -/
+def Adaptor.learn (env : Env α) (step : α) (accProb : α) (accepted : Bool) :
+    Adaptor α → Adaptor α × α
+  | .adaptive target start stop useRate calls acc =>
+    let calls' := calls + 1
+    let acc' := acc + (if accepted then 1 else 0)
+    let a' := Adaptor.adaptive target start stop useRate calls' acc'
+    if inWindow start stop calls' && (!useRate || decide (10 ≤ calls')) then
+      let prob : α := if useRate then FromNat.ofNat acc' / FromNat.ofNat calls' else accProb
+      (a', env.asNew step prob target (FromNat.ofNat calls'))
+    else (a', step)
+  | .dual mu gamma kappa t0 delta start stop calls counter x xbar sbar =>
+    let calls' := calls + 1
+    if inWindow start stop calls' then
+      let counter' := counter + 1
+      let r := env.daStep mu gamma kappa t0 (FromNat.ofNat counter') sbar xbar (delta - accProb)
+      (.dual mu gamma kappa t0 delta start stop calls' counter' r.2.1 r.2.2 r.1, env.daSet r.2.1)
+    else
+      let a' := Adaptor.dual mu gamma kappa t0 delta start stop calls' counter x xbar sbar
+      match stop with
+      | some e => if e ≤ calls' then (a', env.daSet xbar) else (a', step)
+      | none => (a', step)
+  | .massMatrix => (.massMatrix, step)
+
+/-- `for adaptor in self._adaptors: adaptor.learn(...)` -/
+def learnAll (env : Env α) (accProb : α) (accepted : Bool) :
+    List (Adaptor α) → α → List (Adaptor α) × α
+  | [], step => ([], step)
+  | a :: rest, step =>
+    let r := a.learn env step accProb accepted
+    let rr := learnAll env accProb accepted rest r.2
+    (r.1 :: rr.1, rr.2)
+
+/-- `MCMCOperator.tune` + the `adaptable_parameter` setter (`_adapt_count += 1`);
+`HMCOperator.tune` hands over to its adaptors when it has any (then `_disable_adaptation` is not
+consulted, as in the code) -/
+def tune (env : Env α) (op : Op α) (accProb : α) (accepted : Bool) : Op α :=
+  if op.adaptors.isEmpty then
+    if op.disabled then op
+    else
+      let newp := env.rm (env.get op.kind op.scale) accProb op.target (FromNat.ofNat op.adaptCount)
+      { op with scale := env.set op.kind newp, adaptCount := op.adaptCount + 1 }
   else
-    let newp := env.rm (env.get op.kind op.scale) accProb op.target (FromNat.ofNat op.adaptCount)
-    { op with scale := env.set op.kind newp, adaptCount := op.adaptCount + 1 }
+    let r := learnAll env accProb accepted op.adaptors op.scale
+    { op with adaptors := r.1, scale := r.2 }
 
 /-- outcome of the accept/reject block of `MCMC.run` -/
 structure Decision (α : Type) where
@@ -244,7 +308,7 @@ def mcmcStep (env : Env α) (half : α) (m : Machine α) (tape : Tape α) :
       let logJointAfter := if d.accepted then d.lpValue else m.logJoint
       let op1 := if d.accepted then op.onAccept else op.onReject
       let logged := env.target stateAfter                    -- `logger.log(sample=epoch)`
-      let op2 := tune env op1 d.accProb
+      let op2 := tune env op1 d.accProb d.accepted
       let m' : Machine α :=
         { state := stateAfter, logJoint := logJointAfter, ops := m.ops.set oi op2,
           epoch := m.epoch + 1,
